@@ -336,7 +336,13 @@ func ruleTLWFrame(r *Run, p *Prog) {
 			}
 		}
 		good := okPayload && okLevel && okSplit
-		r.Ob("TLW-FRAME", fn+"/flush:"+c.Call.Method.Name(), p.Pos(c.Pos()), good, true, tern(good, "held lines are re-emitted front to back as (Level(line[0]), line[1:]) with line = p[:i+1], p = p[i+1:], i = IndexByte(p,'\\n')", "the flush does not undo the framing (payload line[1:]="+boolStr(okPayload)+", level Level(line[0])="+boolStr(okLevel)+", split at newline and advance="+boolStr(okSplit)+")"))
+		destName := "Write"
+		if c.Call.Method != nil {
+			destName = c.Call.Method.Name()
+		} else if sc := staticCallee(&c.Call); sc != nil {
+			destName = sc.Name()
+		}
+		r.Ob("TLW-FRAME", fn+"/flush:"+destName, p.Pos(c.Pos()), good, true, tern(good, "held lines are re-emitted front to back as (Level(line[0]), line[1:]) with line = p[:i+1], p = p[i+1:], i = IndexByte(p,'\\n')", "the flush does not undo the framing (payload line[1:]="+boolStr(okPayload)+", level Level(line[0])="+boolStr(okLevel)+", split at newline and advance="+boolStr(okSplit)+")"))
 	}
 	// trigger() is only called with the lock held
 	named := p.NamedType("", "TriggerLevelWriter")
